@@ -356,9 +356,15 @@ Definition v_nodup (v : pv) : bool := match v with PDict kvs => nodupb pv_eqb (m
 Definition rawc (w : pv) : bool := pv_eqb (raw_canon (abs w)) w && ints_ok (abs w) && nodup_keys (abs w).
 Definition v_rawc (v : pv) : bool := match v with PRaw w => rawc w | PTag _ _ => rawc v | _ => true end.
 
-Definition canon_typed (x : pv) : bool :=
-  vshape v_int_ok x && vshape v_no_pylist x && vshape v_no_empty_ilist x && vshape v_short_bytes x
-  && vshape v_nodup x && vshape v_rawc x.
+(* dict keys of the typed part are int / bytes / ByteString (what a Python dict of a dataclass field can hold) *)
+Definition v_atom_keys (v : pv) : bool :=
+  match v with
+  | PDict kvs => forallb (fun kv => match fst kv with PInt _ | PBytes _ | PBStr _ => true | _ => false end) kvs
+  | _ => true
+  end.
+Definition n_typed (w : pv) : bool :=
+  v_int_ok w && v_no_pylist w && v_no_empty_ilist w && v_short_bytes w && v_nodup w && v_atom_keys w && v_rawc w.
+Definition canon_typed (x : pv) : bool := vshape n_typed x.
 
 (* type-directed conditions: q t v at every typed position *)
 Fixpoint tshape (q : ty -> pv -> bool) (t : ty) (v : pv) {struct v} : bool :=
@@ -423,7 +429,7 @@ Definition typed_region (route : nat) (t : ty) (x : pv) : nat :=
   let enc_prem := [(vshape v_int_ok x, RG_bigint); (vshape v_no_pylist x, RG_typed_pylist);
                    (vshape v_no_empty_ilist x, RG_typed_empty_ilist);
                    (vshape v_short_bytes x, RG_typed_long_in_container);
-                   (vshape v_nodup x, RG_dup_keys);
+                   (vshape v_nodup x, RG_dup_keys); (vshape v_atom_keys x, RG_key_build);
                    (vshape v_rawc x, RG_typed_datum)] in
   match route with
   | 0 | 1 => first_region enc_prem
@@ -484,3 +490,58 @@ Definition run_corr (cases : list (nat * ccase)) : list nat :=
   flat_map (fun ic => flat_map (fun r => [fst ic; r]) (corr_case (snd ic))) cases.
 Definition run_oracle (cases : list (nat * ccase)) : list nat :=
   flat_map (fun ic => flat_map (fun rr => [fst ic; fst rr; snd rr]) (oracle_case (snd ic))) cases.
+
+(* ---------- typed round trip: values that from_primitive rebuilds exactly ---------- *)
+(* raw data in the shape the decoder produces (plain bytes, never ByteString) *)
+Definition dec_exact (w : pv) : bool := pv_eqb (raw_dec (abs w)) w.
+
+Fixpoint rt_exact (t : ty) (v : pv) {struct t} : bool :=
+  match t with
+  | TInt => match v with PInt _ => true | _ => false end
+  | TBytes => match v with PBytes b => (length b <=? 64)%nat | _ => false end
+  | TBStr => match v with PBStr _ => true | _ => false end
+  | TList _ => match v with PList [] => true | _ => false end          (* List[...] fields come back as Python lists *)
+  | TDict kt vt =>
+      match v with
+      | PDict kvs => forallb (fun kv => rt_exact kt (fst kv) && rt_exact vt (snd kv)) kvs && nodupb pv_eqb (map fst kvs)
+      | _ => false
+      end
+  | TCls id fts =>
+      match v with
+      | PObj id' fts' fs => (id =? id') && list_eqb ty_eqb fts fts' && forall2b rt_exact fts fs
+      | _ => false
+      end
+  | TUnion ts =>
+      match v with
+      | PObj id' _ _ =>
+          (fix pick (l : list ty) : bool :=
+             match l with
+             | [] => false
+             | a :: r => match a with
+                         | TCls idk _ => if idk =? id' then rt_exact a v else pick r
+                         | _ => false
+                         end
+             end) ts
+      | _ => false
+      end
+  | TIList => match v with PIList (x :: xs) => forallb dec_exact (x :: xs) | _ => false end
+  | TDatum =>
+      match v with
+      | PRaw (PTag _ _ as w) => dec_exact w
+      | PInt _ | PDict _ | PIList _ => dec_exact v
+      | PBytes b => (length b <=? 64)%nat
+      | _ => false
+      end
+  end.
+
+(* how many observed routes of a shard lie inside the sound region (premises of the theorems hold) *)
+Definition sound_count (c : ccase) : nat * nat :=
+  match c with
+  | CRaw d _ obs =>
+      (length obs, length (filter (fun ro => match snd ro with OSkip => false | _ => Nat.eqb (raw_region (fst ro) d) 0 end) obs))
+  | CTyped t x _ obs =>
+      (length obs, length (filter (fun ro => match snd ro with OSkip => false | _ => Nat.eqb (typed_region (fst ro) t x) 0 end) obs))
+  | _ => (1, 1)%nat
+  end.
+Definition run_stats (cases : list (nat * ccase)) : list nat :=
+  let l := map (fun ic => sound_count (snd ic)) cases in [list_sum (map fst l); list_sum (map snd l)].
